@@ -57,12 +57,12 @@ CANARIES = [
     ('c09-result-off-by-one', 'C09', 'mindsdb_sql/planner/steps.py', "return Result(self.step_num)", "return Result(self.step_num + 1)", 'C09.result.numbered'),
     ('c09-foreign-steps-write', 'C09', 'mindsdb_sql/planner/query_planner.py', "        return self.plan.add_step(self.get_integration_select_step(select))",
      "        step = self.get_integration_select_step(select)\n        step.step_num = len(self.plan.steps)\n        self.plan.steps.append(step)\n        return step", 'C09.disc.'),
-    ('c04-dquote-lower', 'C04', 'mindsdb_sql/parser/dialects/mindsdb/lexer.py',
-     "        t.value = t.value.replace('\\\\\"', '\"').replace(\"\\\\'\", \"'\")\n        return t", "        t.value = t.value.replace('\\\\\"', '\"').replace(\"\\\\'\", \"'\").lower()\n        return t", 'C04.dec.mindsdb.DQUOTE_STRING'),
+    ('c04-dquote-lower', 'C04', 'mindsdb_sql/parser/dialects/mindsdb/parser.py',
+     "r'\\1\\2', p[0][1:-1])", "r'\\1\\2', p[0][1:-1]).lower()", 'C04.dec.mindsdb.DQUOTE_STRING'),
     ('c04-ident-lower', 'C04', 'mindsdb_sql/parser/ast/select/identifier.py', "parts = [x[0].strip('`') for x in match]", "parts = [x[0].strip('`').lower() for x in match]", 'C04.ident.dec'),
-    ('c04-variable-strip-both', 'C04', 'mindsdb_sql/parser/dialects/mindsdb/lexer.py',
-     "        if t.value[0] == '\"':\n            t.value = t.value.strip('\\\"')\n        elif t.value[0] == \"'\":\n            t.value = t.value.strip('\\'')\n        elif t.value[0] == \"`\":\n            t.value = t.value.strip('`')\n        return t\n\n    @_(r'@@",
-     "        if t.value[0] == '\"':\n            t.value = t.value.strip('\\\"\\'')\n        elif t.value[0] == \"'\":\n            t.value = t.value.strip('\\'')\n        elif t.value[0] == \"`\":\n            t.value = t.value.strip('`')\n        return t\n\n    @_(r'@@", 'C04.dec.mindsdb.VARIABLE'),
+    ('c04-variable-strip-both', 'C04', 'mindsdb_sql/parser/dialects/mindsdb/parser.py',
+     "        value = p.VARIABLE.lstrip('@')\n\n        if value[0] == '\"':\n            value = value.strip('\\\"')",
+     "        value = p.VARIABLE.lstrip('@')\n\n        if value[0] == '\"':\n            value = value.strip('\\\"\\'')", 'C04.dec.mindsdb.VARIABLE'),
     ('c04-sqlite-strip-space', 'C04', 'mindsdb_sql/parser/parser.py', "        return p[0].strip('\\'')", "        return p[0].strip('\\' ')", 'C04.dec.sqlite.QUOTE_STRING'),
     ('c04-harmless-slice', 'C04', 'mindsdb_sql/parser/parser.py', "        return p[0].strip('\\'')", "        return p[0][1:-1]", None),
     ('c04-int-plus-one', 'C04', 'mindsdb_sql/parser/dialects/mindsdb/parser.py', "    def integer(self, p):\n        return int(p[0])", "    def integer(self, p):\n        return int(p[0]) + (1 if len(p[0]) > 18 else 0)", 'C04.int.mindsdb'),
@@ -164,9 +164,9 @@ CANARIES = [
     ('c10-harmless-copy-method', 'C10', 'mindsdb_sql/planner/query_planner.py', "            info = dict(info)\n", "            info = {**info}\n", None),
     ('c11-cte-name-with-alias', 'C11', 'mindsdb_sql/planner/query_planner.py', "                if '.'.join(item.parts) not in cte_names", "                if item.to_string() not in cte_names", 'C11.info.cte-references'),
     ('c11-harmless-cte-last-part', 'C11', 'mindsdb_sql/planner/query_planner.py', "                if '.'.join(item.parts) not in cte_names", "                if not (len(item.parts) == 1 and item.parts[0] in cte_names)", None),
-    ('c02-variable-star', 'C02', 'mindsdb_sql/parser/dialects/mindsdb/lexer.py', "    @_(r'@[a-zA-Z_.$]+',", "    @_(r'@[a-zA-Z_.$]*',", 'C02.lex.action.mindsdb.VARIABLE'),
-    ('c02-harmless-variable-slice', 'C02', 'mindsdb_sql/parser/dialects/mindsdb/lexer.py', "    def VARIABLE(self, t):\n        t.value = t.value.lstrip('@')\n", "    def VARIABLE(self, t):\n        t.value = t.value[1:]\n", None),
-    ('c02-from-table-index-plus-one', 'C02', 'mindsdb_sql/parser/dialects/mindsdb/parser.py', "                query.targets[i].alias = Identifier(parts=[col])", "                query.targets[i + 1].alias = Identifier(parts=[col])", 'C02.action.mindsdb.from_table'),
+    ('c02-variable-star', 'C02', 'mindsdb_sql/parser/dialects/mindsdb/lexer.py', "    @_(r'@[a-zA-Z_.$]+',", "    @_(r'@[a-zA-Z_.$]*',", 'C02.action.mindsdb.variable'),
+    ('c02-harmless-variable-slice', 'C02', 'mindsdb_sql/parser/dialects/mindsdb/parser.py', "        value = p.VARIABLE.lstrip('@')\n", "        value = p.VARIABLE[1:]\n", None),
+    ('c02-from-table-index-plus-one', 'C02', 'mindsdb_sql/parser/dialects/mindsdb/parser.py', "                query.targets[i].alias = Identifier.from_path_str(col)", "                query.targets[i + 1].alias = Identifier.from_path_str(col)", 'C02.action.mindsdb.from_table'),
     ('c16-strip-leading', 'C16', 'mindsdb_sql/__init__.py', "    sql = re.sub(r'[\\s;]+$', '', sql)", "    sql = re.sub(r'^[\\s;]+|[\\s;]+$', '', sql)", None),
     ('c16-strip-inner-semicolons', 'C16', 'mindsdb_sql/__init__.py', "    sql = re.sub(r'[\\s;]+$', '', sql)", "    sql = re.sub(r';+\\s*$', '', sql, flags=re.M)", 'C16.bounded.preprocess'),
     ('c20-get-predictor-writes-entry', 'C20', 'mindsdb_sql/planner/query_planner.py', "            info = dict(info)\n", "", 'C20.catalog.frame.get_predictor'),
